@@ -189,12 +189,66 @@ def gen_precond(rng, n, kind):
 # ------------------------------------------------------------------------------------------
 # drivers of the real implementation (one per operation; used by run and by replay)
 # ------------------------------------------------------------------------------------------
+class HistoryMismatch(Exception):
+    pass
+
+
+def history_solve(meta, final_json, materialise, construct, attrnames, result_eq, solve=lambda sv: sv.solve()):
+    """The theorems read "the solver object" as a function of the attribute VALUES it holds when solve() is called.  Without a history
+    spec: construct with the final values and solve.  With meta["history"]:
+      repeat   -- solve twice without any change: both results must equal that of a fresh solver;
+      reassign -- construct with other values for the listed attributes, solve, re-assign those attributes to the final values, solve again;
+      shared   -- two solver objects built on the very same array objects (the listed attributes), the other one solved first.
+    In every mode the observed result must be identical to that of a fresh solver constructed with the final values
+    (else HistoryMismatch), and it is what the model comparison and the optimality oracle of the case then judge."""
+    h = meta.get("history")
+    fin = materialise(final_json)
+    if not h:
+        return solve(construct(fin)), fin
+    mode = h["mode"]
+    if mode == "shared":
+        oth = materialise(dict(final_json, **h.get("first", {})))
+        for nm in h["shared"]:
+            oth[nm] = fin[nm]
+        s1, s2 = construct(oth), construct(fin)
+        solve(s1)
+        out = solve(s2)
+    else:
+        sv = construct(materialise(dict(final_json, **h.get("first", {}))))
+        out1 = solve(sv)
+        if mode == "reassign":
+            for nm in h["attrs"]:
+                setattr(sv, attrnames[nm], fin[nm])
+        out = solve(sv)
+        if mode == "repeat" and not result_eq(out1, out):
+            raise HistoryMismatch("HISTORY: solve() called twice on the same object without any change gave %s and then %s" % (_show(out1), _show(out)))
+    fresh = solve(construct(materialise(final_json)))
+    if not result_eq(out, fresh):
+        raise HistoryMismatch("HISTORY(%s %s): the object returned %s, a fresh solver holding the same attribute values returns %s"
+                              % (mode, h.get("attrs", h.get("shared", "")), _show(out), _show(fresh)))
+    return out, fin
+
+
+def _show(out):
+    try:
+        return "(%s, %s)" % (np.asarray(out[0], dtype=float).ravel().tolist(), out[1] if not isinstance(out[1], dict) else out[1].get("nfev"))
+    except Exception:
+        return repr(out)[:200]
+
+
+def _xk_eq(a, b):
+    return np.array_equal(np.asarray(a[0], dtype=float), np.asarray(b[0], dtype=float), equal_nan=True) and int(a[1]) == int(b[1])
+
+
 def drive_cgls(meta, maxit, tol):
     S = solver_mod()
-    A = mk_operator(meta["A"], meta["form"])
-    b, x0 = np.array(meta["b"], dtype=float), np.array(meta["x0"], dtype=float)
+    fj = {"A": meta["A"], "b": meta["b"], "x0": meta["x0"], "maxit": maxit, "tol": tol, "shift": meta["shift"]}
+    mat = lambda v: {"A": mk_operator(v["A"], meta["form"]), "b": np.array(v["b"], dtype=float), "x0": np.array(v["x0"], dtype=float),
+                     "maxit": int(v["maxit"]), "tol": v["tol"], "shift": v["shift"]}
     with np.errstate(all="ignore"):
-        x, k = S.CGLS(A, b, x0, maxit, tol, meta["shift"]).solve()
+        (x, k), fin = history_solve(meta, fj, mat, lambda v: S.CGLS(v["A"], v["b"], v["x0"], v["maxit"], v["tol"], v["shift"]),
+                                    {"A": "A", "b": "b", "x0": "x0", "maxit": "maxit", "tol": "tol", "shift": "shift"}, _xk_eq)
+    A, b, x0 = fin["A"], fin["b"], fin["x0"]
     _unchanged("b", b, meta["b"]); _unchanged("x0", x0, meta["x0"])
     if not callable(A):
         _unchanged("A", A, meta["A"])
@@ -216,11 +270,14 @@ def max_dim_inv(value):
 def drive_pcgls(meta, maxit, tol):
     import scipy.sparse as spa
     S = solver_mod()
-    A = mk_operator(meta["A"], meta["form"])
-    P = spa.csc_matrix(np.array(meta["P"], dtype=float))
-    b, x0 = np.array(meta["b"], dtype=float), np.array(meta["x0"], dtype=float)
+    fj = {"A": meta["A"], "b": meta["b"], "x0": meta["x0"], "P": meta["P"], "maxit": maxit, "tol": tol, "shift": meta["shift"]}
+    mat = lambda v: {"A": mk_operator(v["A"], meta["form"]), "b": np.array(v["b"], dtype=float), "x0": np.array(v["x0"], dtype=float),
+                     "P": spa.csc_matrix(np.array(v["P"], dtype=float)), "maxit": int(v["maxit"]), "tol": v["tol"], "shift": v["shift"]}
     with max_dim_inv(0 if meta["pinv"] == "spsolve" else None), np.errstate(all="ignore"):
-        x, k = S.PCGLS(A, b, x0, P, maxit, tol, meta["shift"]).solve()
+        # PCGLS keeps its inputs in underscore attributes (and caches P^-1 in the constructor): only b, x0, tol, maxit are re-assigned
+        (x, k), fin = history_solve(meta, fj, mat, lambda v: S.PCGLS(v["A"], v["b"], v["x0"], v["P"], v["maxit"], v["tol"], v["shift"]),
+                                    {"b": "_b", "x0": "_x0", "maxit": "_maxit", "tol": "_tol"}, _xk_eq)
+    A, b, x0, P = fin["A"], fin["b"], fin["x0"], fin["P"]
     _unchanged("b", b, meta["b"]); _unchanged("x0", x0, meta["x0"]); _unchanged("P", P, meta["P"])
     if not callable(A):
         _unchanged("A", A, meta["A"])
@@ -251,9 +308,12 @@ def mk_bound(bd):
 
 def drive_fista(meta, maxit, abstol):
     S = solver_mod()
-    A = mk_operator(meta["A"], meta["form"])
-    b, x0 = np.array(meta["b"], dtype=float), np.array(meta["x0"], dtype=float)
-    x, k = S.FISTA(A, b, x0, mk_prox(meta), maxit=maxit, stepsize=meta["t"], abstol=abstol, adaptive=meta["adaptive"]).solve()
+    fj = {"A": meta["A"], "b": meta["b"], "x0": meta["x0"], "prox": meta["prox"], "maxit": maxit, "t": meta["t"], "abstol": abstol, "adaptive": meta["adaptive"]}
+    mat = lambda v: {"A": mk_operator(v["A"], meta["form"]), "b": np.array(v["b"], dtype=float), "x0": np.array(v["x0"], dtype=float),
+                     "prox": mk_prox({"prox": v["prox"]}), "maxit": int(v["maxit"]), "t": v["t"], "abstol": v["abstol"], "adaptive": v["adaptive"]}
+    (x, k), fin = history_solve(meta, fj, mat, lambda v: S.FISTA(v["A"], v["b"], v["x0"], v["prox"], maxit=v["maxit"], stepsize=v["t"], abstol=v["abstol"], adaptive=v["adaptive"]),
+                                {"A": "A", "b": "b", "x0": "x0", "prox": "proximal", "maxit": "maxit", "t": "stepsize", "abstol": "abstol", "adaptive": "adaptive"}, _xk_eq)
+    A, b, x0 = fin["A"], fin["b"], fin["x0"]
     _unchanged("b", b, meta["b"]); _unchanged("x0", x0, meta["x0"])
     if not callable(A):
         _unchanged("A", A, meta["A"])
@@ -591,10 +651,21 @@ def drive_minimize(meta):
     rec = Recorder(scipy.optimize.minimize)
     out = {"raised": None}
     cls = S.maximize if meta["op"] == "maximize" else S.minimize
+    h = meta.get("history")
     with patched(scipy.optimize, "minimize", rec), warnings.catch_warnings():
         warnings.simplefilter("ignore")
         try:
-            sol, info = cls(fun, x0, gradfunc=grad, method=meta["method"], **meta.get("kwargs", {})).solve()
+            if not h:
+                sol, info = cls(fun, x0, gradfunc=grad, method=meta["method"], **meta.get("kwargs", {})).solve()
+            else:
+                # history: construct with other x0 / method / kwargs, solve, re-assign the public attributes, solve again (or solve twice)
+                first = dict({"x0": meta["x0"], "method": meta["method"], "kwargs": meta.get("kwargs", {})}, **h.get("first", {}))
+                sv = cls(fun, np.array(first["x0"], dtype=float), gradfunc=grad, method=first["method"], **first["kwargs"])
+                sv.solve()
+                if h["mode"] == "reassign":
+                    sv.x0, sv.method, sv.kwargs = x0, meta["method"], dict(meta.get("kwargs", {}))
+                sol, info = sv.solve()
+                rec.calls[:] = rec.calls[-1:]
             out.update(sol=sol, info=info)
         except Exception as e:
             out["raised"] = repr(e)
@@ -787,8 +858,23 @@ def case_lm_conv(meta):
         Ff, Jf = lm2_funcs(meta["p"])
         x0 = np.array(meta["x0"], dtype=float)
     x0_in = x0.copy()
+    nu0v = meta["nu0"] if ("nu0" in meta and meta.get("use_nu0")) else 1e-3
+    if meta["op"] == "lm_conv1":
+        fj = {"co": meta["co"], "x0": [meta["x0"]], "maxit": meta["maxit"], "gradtol": meta["gradtol"], "nu0": nu0v}
+        def mat(v):
+            F_, J_ = quad_funcs(v["co"], meta["sparse"], buffer=meta.get("callable") == "buffer")
+            return {"F": F_, "J": J_, "x0": np.array(v["x0"], dtype=float), "maxit": int(v["maxit"]), "gradtol": v["gradtol"], "nu0": v["nu0"]}
+    else:
+        fj = {"p": meta["p"], "x0": meta["x0"], "maxit": meta["maxit"], "gradtol": meta["gradtol"], "nu0": nu0v}
+        def mat(v):
+            F_, J_ = lm2_funcs(v["p"])
+            return {"F": F_, "J": J_, "x0": np.array(v["x0"], dtype=float), "maxit": int(v["maxit"]), "gradtol": v["gradtol"], "nu0": v["nu0"]}
+    lm_eq = lambda a, b_: (np.array_equal(np.asarray(a[0], dtype=float), np.asarray(b_[0], dtype=float), equal_nan=True) and int(a[1]["nfev"]) == int(b_[1]["nfev"]))
     with np.errstate(all="ignore"):
-        x, info = S.LM(Ff, x0, Jf, maxit=meta["maxit"], gradtol=meta["gradtol"], sparse=meta.get("sparse", False), **({"nu0": meta["nu0"]} if "nu0" in meta and meta.get("use_nu0") else {})).solve()
+        (x, info), fin = history_solve(meta, fj, mat,
+                                       lambda v: S.LM(v["F"], v["x0"], v["J"], maxit=v["maxit"], gradtol=v["gradtol"], nu0=v["nu0"], sparse=meta.get("sparse", False)),
+                                       {"F": "A", "J": "jacfun", "x0": "x0", "maxit": "maxit", "gradtol": "gradtol", "nu0": "nu0"}, lm_eq)
+    x0 = fin["x0"]
     _unchanged("x0", x0, x0_in)
     k = int(info["nfev"])
     if not np.all(np.isfinite(np.asarray(x, dtype=float))):
@@ -908,9 +994,18 @@ def case_lbfgsb(meta):
         scripted = lambda *a, **k: (np.array(sc["x"], dtype=float), sc["f"], {"grad": np.array(sc["grad"], dtype=float), "task": sc["task"],
                                                                               "funcalls": sc["funcalls"], "nit": sc["nit"], "warnflag": sc["warnflag"]})
     rec = Recorder(S.fmin_l_bfgs_b, scripted)
+    h = meta.get("history")
     with patched(S, "fmin_l_bfgs_b", rec):
-        sol, info = S.L_BFGS_B(f, x0, gradfunc=g if meta["with_grad"] else None, **meta.get("kwargs", {})).solve()
-    a, k, res = rec.calls[0]
+        if not h:
+            sol, info = S.L_BFGS_B(f, x0, gradfunc=g if meta["with_grad"] else None, **meta.get("kwargs", {})).solve()
+        else:
+            first = dict({"x0": meta["x0"], "kwargs": meta.get("kwargs", {})}, **h.get("first", {}))
+            sv = S.L_BFGS_B(f, np.array(first["x0"], dtype=float), gradfunc=g if meta["with_grad"] else None, **first["kwargs"])
+            sv.solve()
+            if h["mode"] == "reassign":
+                sv.x0, sv.kwargs = x0, dict(meta.get("kwargs", {}))
+            sol, info = sv.solve()
+    a, k, res = rec.calls[-1]
     d = res[2]
     task = d["task"].decode() if isinstance(d["task"], bytes) else str(d["task"])
     msg = info["message"].decode() if isinstance(info["message"], bytes) else str(info["message"])
@@ -940,9 +1035,18 @@ def case_ls(meta):
         x0 = cuqi.array.CUQIarray(x0, geometry=geom)
     rec = Recorder(S.least_squares)
     jac = Jf if meta["with_jac"] else "2-point"
+    h = meta.get("history")
     with patched(S, "least_squares", rec):
-        sol, info = S.LS(Ff, x0, jacfun=jac, method=meta["method"], loss=meta["loss"], tol=meta["tol"], maxit=meta["maxit"]).solve()
-    a, k, res = rec.calls[0]
+        if not h:
+            sol, info = S.LS(Ff, x0, jacfun=jac, method=meta["method"], loss=meta["loss"], tol=meta["tol"], maxit=meta["maxit"]).solve()
+        else:
+            first = dict({"x0": meta["x0"], "method": meta["method"], "loss": meta["loss"], "tol": meta["tol"], "maxit": meta["maxit"]}, **h.get("first", {}))
+            sv = S.LS(Ff, np.array(first["x0"], dtype=float), jacfun=jac, method=first["method"], loss=first["loss"], tol=first["tol"], maxit=first["maxit"])
+            sv.solve()
+            if h["mode"] == "reassign":
+                sv.x0, sv.method, sv.loss, sv.tol, sv.maxit = x0, meta["method"], meta["loss"], meta["tol"], int(meta["maxit"])
+            sol, info = sv.solve()
+    a, k, res = rec.calls[-1]
     same = (np.array_equal(np.asarray(sol), res["x"]) and np.array_equal(info["func"], res["fun"]) and np.array_equal(info["jac"], res["jac"])
             and info["nfev"] == res["nfev"] and info["success"] == res["success"] and info["message"] == res["message"])
     args_ok = (a[0] is Ff and np.array_equal(np.asarray(a[1]), np.array(meta["x0"], dtype=float)) and k.get("jac") is jac and k.get("method") == meta["method"]
@@ -967,11 +1071,31 @@ def _build_case(meta, rng):
     return BUILDERS[meta["op"]](meta)
 
 
+HIST_CLASS = {"cgls": "CGLS", "pcgls": "PCGLS", "fista": "FISTA", "lm": "LM", "minimize": "minimize", "maximize": "maximize", "lbfgsb": "L_BFGS_B", "ls": "LS"}
+
+
+def hist_label(meta):
+    h = meta.get("history")
+    if not h:
+        return ""
+    return "/history:%s%s" % (h["mode"], ("(" + ",".join(h.get("attrs", h.get("shared", []))) + ")") if h["mode"] != "repeat" else "")
+
+
 def build_case(meta, rng):
+    c = build_case0(meta, rng)
+    if meta.get("history"):
+        c.cell = c.cell + hist_label(meta)
+    return c
+
+
+def build_case0(meta, rng):
     """a non-finite result or an exception escaping the implementation on a generated (well-conditioned, finite) problem is a
     failure of the property with this input as the concrete witness -- not a crash of the generator"""
     try:
         return _build_case(meta, rng)
+    except HistoryMismatch as e:
+        return Case(expr="false", meta=meta, cell="history-mismatch/%s" % meta.get("op", "?"), kind="DECISION", impl_fail=str(e)[:600],
+                    signature=classify(meta, str(e)))
     except Exception as e:
         what = ("returned a non-finite value" if "non-finite" in str(e) else "raised %s" % type(e).__name__)
         return Case(expr="false", meta=meta, cell="abnormal/%s" % meta.get("op", "?"), kind="DECISION",
@@ -1258,6 +1382,78 @@ def metas(ctx):
         sg = 2.0 ** k
         out.append({"op": "lm_conv2", "p": {"a": 10, "b": 1, "c": 0, "d": 0, "sigma": sg}, "x0": [-1.2, 1.0], "maxit": 5000, "gradtol": 1e-6,
                     "must_converge": True, "rho_class": "floor-dominates", "cell": "n2/rosenbrock/sigma2^%d/default-nu0" % k})
+    # ---- HISTORY: the solver object is a function of the attribute values it holds when solve() is called ----
+    def alt_matrix(A):
+        """another matrix of the same shape and the same Frobenius norm (rows reversed, alternating signs): step sizes stay valid"""
+        A = [list(r) for r in A][::-1]
+        return [[(-v if i % 2 == 0 else v) for v in r] for i, r in enumerate(A)] if len(A) > 1 else [[-v for v in r] for r in A]
+    def alt_vec(v, lo=-5, hi=5):
+        w = [rng.randint(lo, hi) for _ in v]
+        if w == list(v):
+            w[0] += 1
+        return w
+    for form, shape in [("dense", "over"), ("sparse", "over"), ("fun", "over"), ("dense", "under")]:
+        me = gen_lsq_meta(rng, shape, "+", "random", form)
+        firsts = {"A": alt_matrix(me["A"]), "b": alt_vec(me["b"]), "x0": alt_vec(me["x0"], -4, 4), "shift": me["shift"] * 4 + 0.5, "tol": 2.0 ** -3, "maxit": 2}
+        hmodes = ([{"mode": "repeat"}] + [{"mode": "reassign", "attrs": at, "first": {k_: firsts[k_] for k_ in at}}
+                                          for at in (["b"], ["A"], ["x0"], ["shift"], ["tol", "maxit"], ["A", "b", "x0", "shift", "tol", "maxit"])]
+                  + [{"mode": "shared", "shared": ["A", "b"], "first": {"x0": firsts["x0"], "shift": firsts["shift"]}}])
+        for hm in hmodes:
+            if form != "dense" and hm["mode"] == "reassign" and len(hm["attrs"]) == 1 and hm["attrs"][0] in ("shift", "x0") and not ctx.thorough:
+                continue
+            out.append(dict(me, op="cgls_solve", tol=1e-6, maxit=100, stopcell="tol1e-6", history=hm))
+        out.append(dict(me, op="cgls_iters", K=min(len(me["A"]), len(me["x0"])) + 1,
+                        history={"mode": "reassign", "attrs": ["A", "b", "maxit"], "first": {"A": firsts["A"], "b": firsts["b"], "maxit": 1}}))
+        # PCGLS (underscore attributes; P^-1 is cached by the constructor, so P itself is never re-assigned)
+        if shape == "over" and form in ("dense", "fun"):
+            mp = gen_lsq_meta(rng, shape, "0", "random", form)
+            while len(mp["x0"]) < 2:
+                mp = gen_lsq_meta(rng, shape, "0", "random", form)
+            mp.update(P=gen_precond(rng, len(mp["x0"]), "general").astype(int).tolist(), pkind="general", pinv="explicit")
+            fp = {"b": alt_vec(mp["b"]), "x0": alt_vec(mp["x0"], -4, 4), "tol": 2.0 ** -3, "maxit": 2}
+            for hm in [{"mode": "repeat"}, {"mode": "reassign", "attrs": ["b"], "first": {"b": fp["b"]}}, {"mode": "reassign", "attrs": ["x0"], "first": {"x0": fp["x0"]}},
+                       {"mode": "reassign", "attrs": ["tol", "maxit"], "first": {"tol": fp["tol"], "maxit": fp["maxit"]}},
+                       {"mode": "shared", "shared": ["A", "b", "P"], "first": {"x0": fp["x0"]}}]:
+                out.append(dict(mp, op="pcgls_solve", tol=1e-6, maxit=100, history=hm))
+        # FISTA / ISTA
+        mf = gen_lsq_meta(rng, shape, "0", "random", form)
+        Af = np.array(mf["A"], dtype=float)
+        adaptive = rng.choice([True, False])
+        pc, pk = rng.choice([("l1", {"kind": "l1", "strength": 1, "direct": True}), ("nonneg", {"kind": "nonneg"}), ("box-scalar", {"kind": "box", "lo": -0.5, "up": 1.0})])
+        mf.update(prox=pk, proxcell=pc, adaptive=adaptive, t=2.0 ** -int(np.ceil(np.log2(float(np.sum(Af * Af))))), stepcell="dyadic")
+        del mf["shift"]
+        ff = {"A": alt_matrix(mf["A"]), "b": alt_vec(mf["b"]), "x0": alt_vec(mf["x0"], -4, 4), "prox": {"kind": "l1", "strength": 2} if pc != "l1" else {"kind": "nonneg"},
+              "t": mf["t"] / 4, "abstol": 0.5, "adaptive": not adaptive, "maxit": 20}
+        fmodes = ([{"mode": "repeat"}] + [{"mode": "reassign", "attrs": at + ["maxit"], "first": dict({k_: ff[k_] for k_ in at}, maxit=20)}
+                                          for at in (["b"], ["A"], ["x0"], ["prox"], ["t"], ["abstol"], ["adaptive"], ["A", "b", "x0", "prox", "t", "abstol", "adaptive"])]
+                  + [{"mode": "shared", "shared": ["A", "b"], "first": {"x0": ff["x0"]}}])
+        for hm in fmodes:
+            out.append(dict(mf, op="fista_conv", maxit=200000, abstol=1e-8, history=hm))
+        out.append(dict(mf, op="fista_runs", K=4, abstol=0.0, history={"mode": "reassign", "attrs": ["A", "b", "maxit"], "first": {"A": ff["A"], "b": ff["b"], "maxit": 3}}))
+    # LM
+    for lab, k, co, x0_, nu0 in [LM_CORPUS[0], LM_CORPUS[4]]:
+        me = {"co": [list(c) for c in co], "x0": x0_, "nu0": nu0, "sparse": False, "sigma": 2.0 ** k, "maxit": 5000, "gradtol": 1e-6, "must_converge": True,
+              "use_nu0": True, "rho_class": "harmless", "cell": "n1/engineered/%s/sigma2^%d" % (lab, k)}
+        fl_ = {"co": [[c[0], c[1] * 2, c[2] + 2.0 ** k] for c in co], "x0": [x0_ + 1.5], "nu0": nu0 * 4, "gradtol": 0.5, "maxit": 2}
+        for hm in [{"mode": "repeat"}, {"mode": "reassign", "attrs": ["F", "J"], "first": {"co": fl_["co"]}}, {"mode": "reassign", "attrs": ["x0"], "first": {"x0": fl_["x0"]}},
+                   {"mode": "reassign", "attrs": ["nu0"], "first": {"nu0": fl_["nu0"]}}, {"mode": "reassign", "attrs": ["gradtol", "maxit"], "first": {"gradtol": 0.5, "maxit": 2}},
+                   {"mode": "reassign", "attrs": ["F", "J", "x0", "nu0", "gradtol", "maxit"], "first": fl_}]:
+            out.append(dict(me, op="lm_conv1", history=hm))
+    pr = {"a": 10, "b": 1, "c": 0, "d": 0, "sigma": 0.03}
+    for hm in [{"mode": "repeat"}, {"mode": "reassign", "attrs": ["F", "J", "x0"], "first": {"p": {"a": 3, "b": -1, "c": 1, "d": 1, "sigma": 1.0}, "x0": [0.5, 0.5]}}]:
+        out.append({"op": "lm_conv2", "p": pr, "x0": [-1.2, 1.0], "nu0": 2.0 ** -3 * 0.03 * 0.03, "use_nu0": True, "maxit": 5000, "gradtol": 1e-6,
+                    "must_converge": True, "rho_class": "harmless", "cell": "n2/rosenbrock/sigma0.03", "history": hm})
+    # wrappers
+    for op in ["minimize", "maximize"]:
+        for hm in [{"mode": "repeat"}, {"mode": "reassign", "attrs": ["x0", "method", "kwargs"], "first": {"x0": [2, -2], "method": "CG", "kwargs": {}}}]:
+            out.append({"op": op, "method": "BFGS", "with_grad": True, "obj": "quad2", "c": [rng.randint(-3, 3), rng.randint(-3, 3), 1], "x0": [rng.randint(-1, 1), rng.randint(-1, 1)],
+                        "cuqiarray": False, "probes": [[1, 2], [0, -1]], "kwargs": {"tol": 1e-3}, "history": hm})
+    for hm in [{"mode": "repeat"}, {"mode": "reassign", "attrs": ["x0", "kwargs"], "first": {"x0": [2, -2], "kwargs": {"maxiter": 1}}}]:
+        out.append({"op": "lbfgsb", "with_grad": True, "obj": "quart2", "c": [1, -1, 2], "x0": [rng.randint(-3, 3), rng.randint(-3, 3)], "kwargs": {}, "history": hm})
+        out.append({"op": "ls", "p": {"a": 2, "b": 1, "c": 1, "d": -1}, "x0": [rng.randint(-2, 2), rng.randint(-2, 2)], "method": "trf", "loss": "linear", "with_jac": True,
+                    "tol": 1e-8, "maxit": 200.0, "cuqiarray": False,
+                    "history": hm if hm["mode"] == "repeat" else {"mode": "reassign", "attrs": ["x0", "method", "loss", "tol", "maxit"],
+                                                                  "first": {"x0": [1, 1], "method": "dogbox", "loss": "soft_l1", "tol": 1e-3, "maxit": 5}}})
     # ---- wrappers ----
     methods = [None, "BFGS", "L-BFGS-B", "CG", "SLSQP", "TNC", "Nelder-Mead", "Powell", "COBYLA"]
     for op, method, with_grad in itertools.product(["minimize", "maximize"], methods, [True, False]):
@@ -1373,6 +1569,10 @@ def classify(meta, detail):
     m = meta.get("meta", meta)
     op = m.get("op", "")
     d = str(detail or "")
+    if d.startswith("HISTORY"):
+        for pre, cls in HIST_CLASS.items():
+            if op.startswith(pre):
+                return "%s.solve|result-depends-on-object-history" % cls
     if op.startswith("cgls"):
         if d.startswith("NORMX"):
             return SIG["cgls_normx"]
